@@ -491,5 +491,12 @@ def r9_symbol_tables_keyed_by_module_name(chk):
            'symbolTable= of the code generator call')
 
 
+
+def r10_largest_subidentifier(chk):
+    """sub-identifiers are NUMBER tokens: the lexer must keep every value up to 2^32-1 in that class (C05.R1)"""
+    from rules.C05 import r1_number_classifier
+    r1_number_classifier(chk, rule='C01.R10')
+
+
 RULES = [r1_subidentifier_shapes, r2_genoid, r3_numeric, r4_trap, r5_fixpoint, r6_translate, r7_plumbing,
-         r7b_summary_not_aliased, r8_normalisation, r9_symbol_tables_keyed_by_module_name]
+         r7b_summary_not_aliased, r8_normalisation, r9_symbol_tables_keyed_by_module_name, r10_largest_subidentifier]
